@@ -15,6 +15,12 @@ pub enum InState {
     Present(Vec<u8>),
     Missing,
     Directory,
+    /// a named pipe: the bytes arrive once, from a writer that closes afterwards (a read-once input)
+    Fifo(Vec<u8>),
+}
+
+extern "C" {
+    fn mkfifo(path: *const std::ffi::c_char, mode: u32) -> i32;
 }
 
 #[derive(Clone, Debug, PartialEq)]
@@ -97,6 +103,7 @@ impl CliCase {
             "input",
             match &self.input {
                 InState::Present(b) => J::obj().set("present", bytes_j(b)),
+                InState::Fifo(b) => J::obj().set("fifo", bytes_j(b)),
                 InState::Missing => J::s("missing"),
                 InState::Directory => J::s("directory"),
             },
@@ -132,6 +139,7 @@ impl CliCase {
         let input = match j.get("input") {
             Some(J::Str(s)) if s == "missing" => InState::Missing,
             Some(J::Str(s)) if s == "directory" => InState::Directory,
+            Some(o) if o.get("fifo").is_some() => InState::Fifo(j_bytes(o.get("fifo").ok_or("input")?)?),
             Some(o) => InState::Present(j_bytes(o.get("present").ok_or("input")?)?),
             None => return Err("input".into()),
         };
@@ -188,6 +196,8 @@ pub struct Fired {
     pub getrandom_seeded: u64,
     pub calls: u64,
     pub opens_of_output: u64,
+    /// environment variables the program asked for
+    pub getenv: Vec<String>,
 }
 
 #[derive(Clone, Debug)]
@@ -276,6 +286,10 @@ fn parse_report(rep: &str, case: &CliCase) -> Fired {
             f.statx_err += 1;
         } else if l.starts_with("fired getrandom") {
             f.getrandom_seeded += 1;
+        } else if let Some(n) = l.strip_prefix("getenv ") {
+            if !f.getenv.iter().any(|x| x == n) {
+                f.getenv.push(n.to_string());
+            }
         }
     }
     f
@@ -288,11 +302,33 @@ pub fn run_cli(case: &CliCase, entropy: u128, sandbox: &Path) -> Result<CliOut, 
 
 /// `expected`: the text a successful run is expected to write (needed to set up `ExistingLikeExpected`)
 pub fn run_cli_with(case: &CliCase, entropy: u128, sandbox: &Path, expected: Option<&str>) -> Result<CliOut, String> {
+    run_cli_env(case, entropy, sandbox, expected, &[])
+}
+
+/// `extra_env`: variables set in addition (used to re-run a world with the variables the program was seen to read)
+pub fn run_cli_env(case: &CliCase, entropy: u128, sandbox: &Path, expected: Option<&str>, extra_env: &[(String, String)]) -> Result<CliOut, String> {
     let _ = std::fs::remove_dir_all(sandbox);
     std::fs::create_dir_all(sandbox).map_err(|e| format!("{}: {e}", sandbox.display()))?;
     let inp = sandbox.join(&case.input_name);
+    let mut fifo_writer: Option<std::thread::JoinHandle<()>> = None;
     match &case.input {
         InState::Present(b) => std::fs::write(&inp, b).map_err(|e| e.to_string())?,
+        InState::Fifo(b) => {
+            let c = std::ffi::CString::new(inp.to_string_lossy().as_bytes()).map_err(|e| e.to_string())?;
+            if unsafe { mkfifo(c.as_ptr(), 0o644) } != 0 {
+                return Err(format!("mkfifo {}: {}", inp.display(), std::io::Error::last_os_error()));
+            }
+            // the writer: opens (blocks until the program opens the pipe for reading), writes everything, closes.
+            // Opened read+write first so that this thread can never block forever if the program never reads.
+            let data = b.clone();
+            let path = inp.clone();
+            fifo_writer = Some(std::thread::spawn(move || {
+                use std::io::Write;
+                if let Ok(mut f) = std::fs::OpenOptions::new().write(true).open(&path) {
+                    let _ = f.write_all(&data);
+                }
+            }));
+        }
         InState::Missing => {}
         InState::Directory => std::fs::create_dir_all(&inp).map_err(|e| e.to_string())?,
     }
@@ -337,9 +373,15 @@ pub fn run_cli_with(case: &CliCase, entropy: u128, sandbox: &Path, expected: Opt
             ("HOME", "/nonexistent"),
             ("TMPDIR", "/nonexistent"),
             ("USER", "somebody"),
+            // a stale PWD is what every parent produces that changes the child's cwd without touching the environment
+            ("PWD", "/"),
+            ("OLDPWD", "/tmp"),
         ] {
             cmd.env(k, v);
         }
+    }
+    for (k, v) in extra_env {
+        cmd.env(k, v);
     }
     cmd.env("LD_PRELOAD", shim_path());
     cmd.env("XSG_FAULT_PLAN", &plan);
@@ -376,6 +418,13 @@ pub fn run_cli_with(case: &CliCase, entropy: u128, sandbox: &Path, expected: Opt
             }
         }
     };
+    if let Some(w) = fifo_writer.take() {
+        // if the program never opened the pipe, the writer is still blocked in open(2): give it a reader, then join
+        use std::os::unix::fs::OpenOptionsExt;
+        let unblock = std::fs::OpenOptions::new().read(true).custom_flags(0o4000).open(&inp);
+        let _ = w.join();
+        drop(unblock);
+    }
     let report = std::fs::read_to_string(&rp).unwrap_or_default();
     let out = CliOut {
         exit: status.and_then(|s| s.code()),
